@@ -453,3 +453,51 @@ func verifLemmaReserveNewNeed(req models.ChfConvergedChargingChargingDataRequest
 	return sessionChargingReservation(req)
 }
 
+// Conservation across a new reservation (reserve mode, unit cost 1): decided by cvc5 in about a minute, so
+// it is checked in the thorough tier only.
+// @ lemma verifLemmaReserveKnownNeedConservation [C01]
+// @   requires specCost(req) == 1
+// @   tier thorough
+// @   bounded one multiple-unit-usage entry with one online-charging used-unit container and no trigger; scenario: rating group known, reserve mode at unit cost 1, a new reservation is needed
+// @   inline-calls sessionChargingReservation
+// @   requires verif_held(&specUe(req).CULock)
+// @   requires factory.SpecValidated(factory.ChfConfig)
+// @   requires chf_context.GetSelf().AbmfCfg != nil && chf_context.GetSelf().RatingCfg != nil
+// @   requires len(req.MultipleUnitUsage) == 1 && len(req.MultipleUnitUsage[0].UsedUnitContainer) == 1 && len(req.Triggers) == 0
+// @   requires req.MultipleUnitUsage[0].UsedUnitContainer[0].QuotaManagementIndicator == models.QuotaManagementIndicator_ONLINE_CHARGING
+// @   requires specUe(req).RatingType[specRg(req)] == charging_datatype.REQ_SUBTYPE_RESERVE || specUe(req).RatingType[specRg(req)] == charging_datatype.REQ_SUBTYPE_DEBIT
+// @   requires specUsed(req) >= 0 && specUsed(req)*specCost(req) < 1<<32
+// @   requires req.MultipleUnitUsage[0].RequestedUnit == nil || (req.MultipleUnitUsage[0].RequestedUnit.TotalVolume >= 0 && int64(req.MultipleUnitUsage[0].RequestedUnit.TotalVolume)*specCost(req) < 1<<32)
+// @   requires chf_context.GhostKnown[req.SubscriberIdentifier]
+// @   requires abmf.GhostBalance != nil && rating.GhostUnitCost != nil && !abmf.GhostFailed && !rating.GhostFailed
+// @   requires abmf.GhostBalance[uint32(specRg(req))] >= 0 && abmf.GhostBalance[uint32(specRg(req))] < 1<<62 && specUe(req).ReservedQuota[specRg(req)] > -(1<<62) && specUe(req).ReservedQuota[specRg(req)] < 1<<62
+// @   requires chf_context.SpecHasRatingGroup(specUe(req), specRg(req)) && specUe(req).RatingType[specRg(req)] == charging_datatype.REQ_SUBTYPE_RESERVE
+// @   requires specUe(req).ReservedQuota[specRg(req)] <= specPrice(req)
+// @   ensures [C01] !abmf.GhostFailed && !rating.GhostFailed ==> abmf.GhostBalance[uint32(specRg(req))]+specUe(req).ReservedQuota[specRg(req)] == old(abmf.GhostBalance[uint32(specRg(req))])+old(specUe(req).ReservedQuota[specRg(req)])-specPrice(req)
+func verifLemmaReserveKnownNeedConservation(req models.ChfConvergedChargingChargingDataRequest) ([]models.MultipleUnitInformation, bool) {
+	return sessionChargingReservation(req)
+}
+
+// @ lemma verifLemmaReserveNewNeedConservation [C01]
+// @   requires specCost(req) == 1
+// @   tier thorough
+// @   bounded one multiple-unit-usage entry with one online-charging used-unit container and no trigger; scenario: rating group not seen before (starts in reserve mode) at unit cost 1, a new reservation is needed
+// @   inline-calls sessionChargingReservation
+// @   requires verif_held(&specUe(req).CULock)
+// @   requires factory.SpecValidated(factory.ChfConfig)
+// @   requires chf_context.GetSelf().AbmfCfg != nil && chf_context.GetSelf().RatingCfg != nil
+// @   requires len(req.MultipleUnitUsage) == 1 && len(req.MultipleUnitUsage[0].UsedUnitContainer) == 1 && len(req.Triggers) == 0
+// @   requires req.MultipleUnitUsage[0].UsedUnitContainer[0].QuotaManagementIndicator == models.QuotaManagementIndicator_ONLINE_CHARGING
+// @   requires specUe(req).RatingType[specRg(req)] == charging_datatype.REQ_SUBTYPE_RESERVE || specUe(req).RatingType[specRg(req)] == charging_datatype.REQ_SUBTYPE_DEBIT
+// @   requires specUsed(req) >= 0 && specUsed(req)*specCost(req) < 1<<32
+// @   requires req.MultipleUnitUsage[0].RequestedUnit == nil || (req.MultipleUnitUsage[0].RequestedUnit.TotalVolume >= 0 && int64(req.MultipleUnitUsage[0].RequestedUnit.TotalVolume)*specCost(req) < 1<<32)
+// @   requires chf_context.GhostKnown[req.SubscriberIdentifier]
+// @   requires abmf.GhostBalance != nil && rating.GhostUnitCost != nil && !abmf.GhostFailed && !rating.GhostFailed
+// @   requires abmf.GhostBalance[uint32(specRg(req))] >= 0 && abmf.GhostBalance[uint32(specRg(req))] < 1<<62 && specUe(req).ReservedQuota[specRg(req)] > -(1<<62) && specUe(req).ReservedQuota[specRg(req)] < 1<<62
+// @   requires !chf_context.SpecHasRatingGroup(specUe(req), specRg(req))
+// @   requires specUe(req).ReservedQuota[specRg(req)] <= specPrice(req)
+// @   ensures [C01] !abmf.GhostFailed && !rating.GhostFailed ==> abmf.GhostBalance[uint32(specRg(req))]+specUe(req).ReservedQuota[specRg(req)] == old(abmf.GhostBalance[uint32(specRg(req))])+old(specUe(req).ReservedQuota[specRg(req)])-specPrice(req)
+func verifLemmaReserveNewNeedConservation(req models.ChfConvergedChargingChargingDataRequest) ([]models.MultipleUnitInformation, bool) {
+	return sessionChargingReservation(req)
+}
+
